@@ -127,7 +127,7 @@ Fixpoint has_unknown (h : host) (e : expr) : Prop :=
   match e with
   | XNum _ | XDec _ _ | XFrac _ | XPct _ | XPowLit _ _ | XStr _ | XErr _ | XCell _ _ | XRange _ _ _ _ => False
   | XVar n => unknown_var h n
-  | XCall name args => unknown_fn h name \/
+  | XCall _ name args => unknown_fn h name \/
       (fix any (l : list expr) : Prop := match l with [] => False | a :: r => has_unknown h a \/ any r end) args
   | XNeg e | XPar e => has_unknown h e
   | XBin _ l r => has_unknown h l \/ has_unknown h r
@@ -146,7 +146,7 @@ Proof.
 Qed.
 Theorem unknown_never_value h : forall e, has_unknown h e -> forall v, fst (xval h e) <> ROk v.
 Proof.
-  induction e as [d|ip fp|fp|pn|pa pb|str|xe|n|k lab|k1 l1 k2 l2|name args IHargs|e IH|b l r IHl IHr|e IH] using expr_ind'; cbn [has_unknown]; intros U v H;
+  induction e as [d|ip fp|fp|pn|pa pb|str|xe|n|k lab|k1 l1 k2 l2|sp name args IHargs|e IH|b l r IHl IHr|e IH] using expr_ind'; cbn [has_unknown]; intros U v H;
     try contradiction.
   - destruct U as [L S]. cbn [xval] in H. rewrite (variable_unknown h n L S) in H. discriminate.
   - change (unknown_fn h name \/ any_unknown h args) in U. cbn [xval] in H.
@@ -161,8 +161,8 @@ Proof.
   - cbn [xval] in H. exact (IH U v H).
 Qed.
 (* ... and a call of an unknown function whose arguments evaluate is #NAME?, raised when the call is reduced *)
-Theorem unknown_call_is_name h name args vs evs : unknown_fn h name -> xvals (xval h) args = (ROk vs, evs) ->
-  xval h (XCall name args) = (RRaise ENAME, evs).
+Theorem unknown_call_is_name h sp name args vs evs : unknown_fn h name -> xvals (xval h) args = (ROk vs, evs) ->
+  xval h (XCall sp name args) = (RRaise ENAME, evs).
 Proof. intros [A B] H. cbn [xval]. rewrite H. cbn [ebind]. rewrite (unknown_function h name vs A B). rewrite app_nil_r. reflexivity. Qed.
 
 (* ---------- C10: exactly one event per reference, post-order, left to right ---------- *)
@@ -178,7 +178,7 @@ Fixpoint refs (e : expr) : list ref :=
   | XVar n => [RVar n]
   | XCell _ l => [RCell (upper_text l)]
   | XRange _ _ _ _ => [RRange]
-  | XCall n args => flat_map refs args ++ [RCall n (length args)]
+  | XCall _ n args => flat_map refs args ++ [RCall n (length args)]
   | XNeg e | XPar e => refs e
   | XBin _ l r => refs l ++ refs r
   end.
@@ -192,7 +192,7 @@ Proof.
 Qed.
 Theorem events_postorder h : forall e v, fst (xval h e) = ROk v -> map ref_of (snd (xval h e)) = refs e.
 Proof.
-  induction e as [d|ip fp|fp|pn|pa pb|str|xe|n|k lab|k1 l1 k2 l2|name args IHargs|e IH|b l r IHl IHr|e IH] using expr_ind'; intros v H.
+  induction e as [d|ip fp|fp|pn|pa pb|str|xe|n|k lab|k1 l1 k2 l2|sp name args IHargs|e IH|b l r IHl IHr|e IH] using expr_ind'; intros v H.
   - reflexivity.
   - reflexivity.
   - reflexivity.
@@ -219,9 +219,9 @@ Proof.
   - cbn [xval refs] in *. exact (IH v H).
 Qed.
 (* arguments are passed in order: the values of the call event are the values of the arguments *)
-Theorem call_arguments_in_order h name args vs evs v : xvals (xval h) args = (ROk vs, evs) ->
+Theorem call_arguments_in_order h sp name args vs evs v : xvals (xval h) args = (ROk vs, evs) ->
   fst (call_function h name vs) = ROk v ->
-  snd (xval h (XCall name args)) = evs ++ [EvFunction name vs].
+  snd (xval h (XCall sp name args)) = evs ++ [EvFunction name vs].
 Proof.
   intros H C. cbn [xval]. rewrite H. cbn [ebind]. pose proof (call_function_events h name vs v C) as E.
   destruct (call_function h name vs). cbn [snd] in *. rewrite E. reflexivity.
